@@ -1,19 +1,75 @@
 """Property -> rules table.  Rules are functions (ctx, repo)."""
-from .rules import ndim
+from .rules import ndim, iface, wrappers, rng, mech
 
 PROPS = {}
 
 
 def prop(pid, quick, thorough=(), undecided=(), assumptions=(),
-         explanation='', title='', technique='', level_text=''):
+         explanation='', technique='', level_text=''):
     PROPS[pid] = dict(quick=list(quick), thorough=list(thorough),
                       undecided=list(undecided),
                       assumptions=list(assumptions),
-                      explanation=explanation, title=title,
+                      explanation=explanation,
                       technique=technique, level_text=level_text)
 
 
-prop('C05', [ndim.r05_1])
+COMMON_ASSUME = [
+    'Python / numpy / scipy / pandas / myokit semantics of the idioms '
+    'enumerated in the transfer functions of chk/',
+    'receiver types recovered from the constructors\' isinstance-raise idiom',
+    'exception edges are not modelled',
+]
+
+prop('C02',
+     [iface.r02_1, iface.r02_7, iface.r02_6, wrappers.r02_2],
+     undecided=['numerical equality of the score with the hand-assembled sum',
+                'covariate values reaching the right individual at run time'],
+     assumptions=COMMON_ASSUME,
+     technique='class-hierarchy analysis: interface exhaustiveness, '
+               'signature compatibility, wrapper forwarding / stale-cache '
+               'fixpoint over field effects',
+     explanation='Decides the structural clauses of C02: every population '
+                 'model class that can be constructed implements (with a '
+                 'compatible signature) every interface method the '
+                 'hierarchical likelihood and the wrappers invoke; wrappers '
+                 'forward state-changing calls and keep no stale cache; '
+                 'pooled/heterogeneous dimensions are classified through the '
+                 'interface.')
+
+prop('C05',
+     [ndim.r05_1],
+     undecided=['numerical values at boundary points', '-inf vs nan'],
+     assumptions=COMMON_ASSUME,
+     technique='AST rule over rank-dispatch chains',
+     explanation='Decides the layout-normalisation clause of C05: every '
+                 'rank-dispatch branch normalises the variable it tests.')
+
+prop('C11',
+     [mech.r11_1, mech.r11_2],
+     undecided=['equality of simulation results (ODE solver)'],
+     assumptions=COMMON_ASSUME,
+     technique='path-sensitive typestate over the statement paths of every '
+               'PKPDModel/SBMLModel method with MRO-resolved inlining',
+     explanation='Decides for every method of the SBML model classes and '
+                 'every assignment of its boolean flags that a rebuilt '
+                 'simulator gets the current dosing regimen re-attached and '
+                 'that a replaced myokit model is followed by a refresh of '
+                 'the name/count tables, on every path to a normal exit.')
+
+prop('C16',
+     [rng.r16_1, rng.r16_2, rng.r16_3, rng.r16_4, rng.r16_5],
+     undecided=['statistical independence of streams from distinct seeds',
+                'bit-level reproducibility of numpy generators'],
+     assumptions=COMMON_ASSUME + [
+         'np.random.default_rng(g) returns a passed-in Generator unchanged'],
+     technique='RNG-stream provenance dataflow ({NONE,INT,GEN} powerset) '
+               'over every function that takes a seed',
+     explanation='Decides the stream structure behind C16: global-stream '
+                 'draws are dominated by a seeding from the seed parameter, '
+                 'an integer seed never fans out to several stochastic '
+                 'callees, Generator seeds are never re-seeded or used in '
+                 'arithmetic, generators are built per call from the seed, '
+                 'and every stochastic callee receives a seed-derived value.')
 
 # properties not claimed (yet), with the reason printed in MANIFEST.json
 NOT_CLAIMED = {}
